@@ -243,7 +243,9 @@ Definition run_c04 (core invert guard : bool) (G H : hostg) (remaps : option (li
          tlist (fun (bf : option its * option its) =>
                   match fst bf, snd bf with
                   | Some b, Some f => L [if modeE then t_explicit b (explicit_h b) else L [];
-                                         tbool (regen_exact f sA sB); tbool (regen_folded f sA sB)]
+                                         (* exact comparison only in implicit mode: the ids _explicit_h gives the
+                                            re-materialised hydrogens depend on set iteration order *)
+                                         tbool (negb modeE && regen_exact f sA sB); tbool (regen_folded f sA sB)]
                   | _, _ => L []
                   end) (combine (map snd glued) fin);
          tbool (existsb (fun f => match f with Some f' => regen_folded f' sA sB | None => false end) fin);
